@@ -81,7 +81,9 @@ class Check:
         self.floors[rule] = n
 
     # ---- finishing ----
-    def finish(self):
+    def finish(self, partial=None):
+        """partial: the AnalysisError that stopped the run early - violations found before it are still reported (exit 1); without any,
+        the caller reports the analysis error (exit 2)"""
         known = load_known()
         kf = [k for k in known if k.get('property') == self.pid and k.get('status', 'known') == 'known']
         exit_code = 0
@@ -100,7 +102,9 @@ class Check:
                 v['status'] = 'VIOLATION'
                 new.append(v)
         # vacuity protection
-        for rule, n in self.floors.items():
+        if partial is not None and not new:
+            return None
+        for rule, n in (self.floors.items() if partial is None else ()):
             got = self.rule_counts.get(rule, 0)
             if got < n:
                 raise AnalysisError(f'rule {rule} matched {got} instances, fewer than the confirmed floor {n} (anchor vanished?)')
@@ -114,6 +118,8 @@ class Check:
         for ln in lines:
             print(ln)
         nk = sum(1 for v in self.violations if v['status'] == 'KNOWN')
+        if partial is not None:
+            print(f'ANALYSIS-ERROR property={self.pid} reason={partial} (the run stopped here; the violations above were found before it)')
         print(f"[{self.pid}] tier={self.tier} obligations={sum(self.rule_counts.values())} "
               f"violations={len(new)} known={nk} evaluations={self.evaluations} wall={time.time() - self.t0:.1f}s")
         return exit_code
@@ -194,6 +200,7 @@ def main(argv=None):
     if args.replay:
         print(Path(args.replay).read_text())
         print('re-deriving on the current tree:')
+    ck = None
     try:
         import importlib
         mod = importlib.import_module(f'sa.rules.{pid.lower()}')
@@ -201,6 +208,13 @@ def main(argv=None):
         mod.run(ck)
         return ck.finish()
     except AnalysisError as e:
+        if ck is not None and ck.violations:
+            try:
+                rc = ck.finish(partial=e)
+                if rc is not None:
+                    return rc
+            except Exception:
+                pass
         print(f'ANALYSIS-ERROR property={pid} reason={e}')
         if os.environ.get('VERIF_TRACE'):
             traceback.print_exc()
